@@ -100,6 +100,18 @@ def _same(a, b):
     return a == b and type(a) is type(b)
 
 
+def _truth():
+    return True
+
+
+def _ret2():
+    return 2
+
+
+def _ret25():
+    return 2.5
+
+
 def _name_of_a():
     return "a"
 
@@ -151,6 +163,8 @@ def cache_sweep(tier, seed=0):
         ({"e": (_empty_array,), "s": (_total, "e"), "t": (add, "s", 1), "n": (add, "s", 0), "u": (str.strip, " ")}, ["t", ["s", "t"], ["n", "u"], ["u"]]),
         # results that LOOK like graph terms: a string equal to another key, a tuple headed by a callable, a list of key names
         ({"a": (inc, 99), "b": (_name_of_a,), "c": (_task_like,), "d": (_pair, "b", "c"), "k": (_key_list,)}, [["a", "b"], ["b", "c", "d"], "d", ["k", "a"]]),
+        # numeric keys whose results are numbers equal to OTHER keys of the graph (1, 2, 2.5, True == 1)
+        ({1: (_ret2,), 2: (_ret25,), 2.5: (_truth,), "s": (_pair, 1, 2), "q": (_pair, 2.5, "s")}, [[1, 2], ["s", 2.5], "q", [2.5, 1]]),
     ]
     try:
         for dsk, requests in graphs:
@@ -168,7 +182,7 @@ def cache_sweep(tier, seed=0):
                             except Exception as e:  # noqa
                                 msg = f"{type(e).__name__}: {e}"
                             if msg:
-                                fails.append(rtc.Failure("Cache", {"graph": sorted(dsk), "request": req, "capacity": cap, "round": rounds, "scheduler": get.__module__}, "ensures", "C52-cache-does-not-change-values", msg))
+                                fails.append(rtc.Failure("Cache", {"graph": sorted(dsk, key=repr), "request": req, "capacity": cap, "round": rounds, "scheduler": get.__module__}, "ensures", "C52-cache-does-not-change-values", msg))
         # item-bounded caches (oldest evicted first): a later computation reuses a cached key next to fresh work
         from collections import OrderedDict
 
@@ -204,12 +218,12 @@ def cache_sweep(tier, seed=0):
                             except Exception as e:  # noqa
                                 msg = f"{type(e).__name__}: {e}"
                             if msg:
-                                fails.append(rtc.Failure("Cache", {"graph": sorted(dsk), "warm": warm, "request": req, "maxitems": maxitems, "scheduler": get.__module__}, "ensures", "C52-cache-does-not-change-values", msg))
+                                fails.append(rtc.Failure("Cache", {"graph": sorted(dsk, key=repr), "warm": warm, "request": req, "maxitems": maxitems, "scheduler": get.__module__}, "ensures", "C52-cache-does-not-change-values", msg))
     finally:
         if stubbed:
             sys.path.remove(stub_dir)
     return {"function": "dask/cache.py:Cache (real code; third-party `cachey` replaced by a small stand-in: stated assumption)", "bounded": True,
-            "bound": {"graphs": "5 (one with zero-byte and falsy results, one whose results look like keys / tasks)", "capacities": [1e9, 400, 200, 120], "rounds reusing the cache": 3, "schedulers": "sync, threaded"},
+            "bound": {"graphs": "6 (one with zero-byte and falsy results, one whose results look like keys / tasks, one with numeric keys whose results equal other keys)", "capacities": [1e9, 400, 200, 120], "rounds reusing the cache": 3, "schedulers": "sync, threaded"},
             "cases": cases, "distinct_nontrivial": cases, "failures_found": len(fails), "wall_s": round(time.time() - t0, 2),
             "samples": [{"native_case": {"request": ["c", "d"], "capacity": 200, "round": 1}}], "failures": fails[:4]}
 
@@ -372,6 +386,35 @@ def lock_many_in_between(n):
     return None
 
 
+def lock_hand_off():
+    """a hold taken through one handle can be ended through any other handle of the same lock (they ARE one lock)"""
+    import copy
+
+    from dask.utils import SerializableLock
+
+    for tok in (None, "tok", ("hdf", 3)):
+        a = SerializableLock(tok)
+        for how, c in (("unpickled copy", pickle.loads(pickle.dumps(a))), ("deepcopy", copy.deepcopy(a)), ("same token", SerializableLock(a.token))):
+            for first, second, label in ((a, c, f"acquired through the original, released through the {how}"), (c, a, f"acquired through the {how}, released through the original")):
+                if not first.acquire(timeout=1):
+                    return f"token {tok!r}: cannot acquire a free lock ({label})"
+                try:
+                    second.release()
+                except Exception as e:  # noqa
+                    first.release()
+                    return f"token {tok!r}: {label}: release raised {type(e).__name__}: {e}"
+                if a.locked() or c.locked():
+                    try:
+                        first.release()
+                    except Exception:  # noqa
+                        pass
+                    return f"token {tok!r}: {label}: the lock is still reported as held"
+                if not first.acquire(timeout=1):
+                    return f"token {tok!r}: {label}: the lock cannot be acquired again"
+                first.release()
+    return None
+
+
 def lock_after_fork():
     """in a forked child, copies made after the fork are still the same lock as the original created before it"""
     import os
@@ -429,6 +472,13 @@ def lock_sweep(tier, seed=0):
         if msg:
             fails.append(rtc.Failure("SerializableLock", {"scenario": "other locks created in between", "n": n_}, "ensures", "C53-holding-one-blocks-the-others", msg))
             break
+    cases += 1
+    try:
+        msg = lock_hand_off()
+    except Exception as e:  # noqa
+        msg = f"{type(e).__name__}: {e}"
+    if msg:
+        fails.append(rtc.Failure("SerializableLock", {"scenario": "acquire through one handle, release through another"}, "ensures", "C53-holding-one-blocks-the-others", msg))
     cases += 1
     try:
         msg = lock_after_fork()
